@@ -17,6 +17,8 @@
 #include <unistd.h>
 
 #define SURVEYTIME 100
+// survey time of the socket [0] and of the context [1]; they differ in the surv-*199 / *50 scenarios
+static int ST[2] = { SURVEYTIME, SURVEYTIME };
 
 static int        g_depth;
 static const int *g_prefix;
@@ -320,7 +322,7 @@ do_recv_aio(int c)
 	// the survey time: issued at or after the survey it can never end before the deadline
 	// (tp + SURVEYTIME >= D), so the reference model is the same for both - but the receive
 	// has to be cut at the deadline, not at its own, later, limit
-	nng_aio_set_timeout(a->aio, c ? SURVEYTIME : NNG_DURATION_INFINITE);
+	nng_aio_set_timeout(a->aio, c ? ST[1] : NNG_DURATION_INFINITE);
 	if (c)
 		nng_ctx_recv(S_ctx, a->aio);
 	else
@@ -407,7 +409,7 @@ do_survey(int c, int step)
 		S_stale = mc->id;
 	mc->has            = 1;
 	mc->id             = id;
-	mc->D              = t0 + SURVEYTIME;
+	mc->D              = t0 + ST[c];
 	mc->ids[mc->nids++] = id;
 }
 
@@ -461,9 +463,9 @@ run_surv(void *arg)
 	S_stale     = 0;
 	seq[0]      = 0;
 	VH_OK(nng_surveyor0_open(&S_sock));
-	VH_OK(nng_socket_set_ms(S_sock, NNG_OPT_SURVEYOR_SURVEYTIME, SURVEYTIME));
+	VH_OK(nng_socket_set_ms(S_sock, NNG_OPT_SURVEYOR_SURVEYTIME, ST[0]));
 	VH_OK(nng_ctx_open(&S_ctx, S_sock));
-	VH_OK(nng_ctx_set_ms(S_ctx, NNG_OPT_SURVEYOR_SURVEYTIME, SURVEYTIME));
+	VH_OK(nng_ctx_set_ms(S_ctx, NNG_OPT_SURVEYOR_SURVEYTIME, ST[1]));
 	nng_listener l;
 	S_fd[0] = vp_connect_raw(S_sock, SP_RESPONDENT, &l);
 	if (S_fd[0] < 0)
@@ -513,7 +515,7 @@ run_surv(void *arg)
 			check_pending(c);
 		}
 	// every outstanding receive ends, and afterwards no survey is live
-	vs_sleep(2 * SURVEYTIME + 50);
+	vs_sleep(2 * (ST[0] > ST[1] ? ST[0] : ST[1]) + 50);
 	vs_settle();
 	for (int c = 0; c < 2; c++) {
 		check_pending(c);
@@ -1108,6 +1110,27 @@ main(int argc, char **argv)
 		if ((T && d > 3) || vx_time_left() < 15)
 			continue;
 		explore(name, run_surv, SC[i].p, SC[i].pl, d);
+	}
+	// socket and context with different survey times: the deadline of a survey is that of the object it
+	// was sent on.  Start states: both surveys out and the clock between the two deadlines.
+	{
+		static const int Pa[] = { L_SURVEY0 + 1, L_SURVEY0, L_ADV99, L_ADV1 }; // t = 100
+		static const int Pb[] = { L_SURVEY0 + 1, L_SURVEY0, L_ADV99 };         // t = 99
+		static const struct {
+			const char *name;
+			int         st0, st1;
+			const int  *p;
+			int         pl;
+		} DV[] = { { "surv-ctx199-sock100", 100, 199, Pa, 4 }, { "surv-ctx50-sock100", 100, 50, Pb, 3 },
+			{ "surv-ctx100-sock199", 199, 100, Pa, 4 }, { "surv-ctx100-sock50", 50, 100, Pb, 3 } };
+		for (int i = 0; i < 4 && vx_time_left() > 15; i++) {
+			int d = T ? 3 : 2;
+			snprintf(name, sizeof(name), "%s-d%d", DV[i].name, d);
+			ST[0] = DV[i].st0;
+			ST[1] = DV[i].st1;
+			explore(strdup(name), run_surv, DV[i].p, DV[i].pl, d);
+		}
+		ST[0] = ST[1] = SURVEYTIME;
 	}
 	// respondent side
 	{
